@@ -47,6 +47,7 @@ LEVEL["decided"] += ' (R14.7) no finally block of the unwind can replace its out
 LEVEL["decided"] += " (R14.8) callbacks keep the keyword arguments they were registered with (R03.13, shared); (R14.9) a stack can be closed again after a close that ended with an exception: exits registered in between run (evaluated as a history on the model with the stack's own fields)."
 LEVEL["decided"] += " (R14.10) awaitify's wrapper cannot intercept and retry a failing exit (C06's census on _core, shared); force_async is applied by awaitify itself or to a synchronous protocol method only."
 LEVEL["technique"] += "; re-close history on the model with the stack's own fields"
+LEVEL["decided"] += ' (R14.11) what push() registers for each kind of argument (async exit, sync context manager, both - the asynchronous protocol wins -, plain callable, neither); (R14.12) an exit registered by an exit during the unwind runs in that unwind, once, and nothing is left in the stack; (R14.13) callback() takes the stack and the callback positional-only.'
 
 STACK_ATTR = "_exit_callbacks"  # re-derived from ExitStack.__init__ on every run (_derive_stack_attr)
 
@@ -769,14 +770,14 @@ def r14_11(ctx) -> None:
         ops = _PushOps(cm, has_aexit, has_exit, is_callable)
         outs = Machine(cfg, ops, resolver=make_resolver(ctx, view, ops, skip=("awaitify",))).run({me: "SELF", cm: "CM"})
         if not outs:
-            ctx.note("R14.11", u, f"[{cell}] could not be evaluated")
+            ctx.note(f"R14.11: [{cell}] could not be evaluated")
             continue
         for oc in outs:
             regs = [r[0] for r in oc.env.get("@registered", ())]
             got = f"{oc.terminal.kind}; registered={regs}; returned={oc.returned}"
             table[cell] = got
             if UNKNOWN in regs or any(r is UNKNOWN for r in regs):
-                ctx.note("R14.11", u, f"[{cell}] the registered value could not be evaluated")
+                ctx.note(f"R14.11: [{cell}] the registered value could not be evaluated")
                 continue
             if want is None:
                 ok = oc.terminal.kind == "raise_exit" and not regs
@@ -795,7 +796,7 @@ def _callback_runner(ctx):
     """The coroutine that ``callback()`` registers to run a plain callback as an exit: the
     first argument of the outer ``partial(...)`` (a method of the stack or a module function)."""
     from .common import inline_locals
-    m = ctx.inlined(ctx.unit("contextlib.ExitStack.callback"))
+    m = _callback_unit(ctx)
     mcfg = cfg_of(m)
     for r in mcfg.nodes:
         if r.kind == "call" and not r.tag and isinstance(r.ast.func, ast.Attribute) \
@@ -812,7 +813,7 @@ def _callback_runner(ctx):
 def _callback_closure(ctx):
     """Second accepted form: ``callback()`` registers a coroutine function defined inside it
     (a closure over the callback and its arguments).  -> (nested unit, registering call node)"""
-    m = ctx.inlined(ctx.unit("contextlib.ExitStack.callback"))
+    m = _callback_unit(ctx)
     mcfg = cfg_of(m)
     for r in mcfg.nodes:
         if r.kind == "call" and not r.tag and isinstance(r.ast.func, ast.Attribute) \
@@ -827,7 +828,7 @@ def _callback_closure(ctx):
 def _r14_5_closure(ctx, u, reg) -> None:
     from .common import inline_locals
     from .lru import enumerate_paths
-    m = ctx.inlined(ctx.unit("contextlib.ExitStack.callback"))
+    m = _callback_unit(ctx)
     mcfg = cfg_of(m)
     cbp = m.param_names()[1]
     va = m.node.args.vararg.arg if m.node.args.vararg else None
@@ -872,7 +873,7 @@ def _callback_factory(ctx):
     private plain function of the library that returns a coroutine function defined inside it.
     -> (factory unit, nested coroutine unit, registering node, argument expression)"""
     from .common import inline_locals
-    m = ctx.inlined(ctx.unit("contextlib.ExitStack.callback"))
+    m = _callback_unit(ctx)
     mcfg = cfg_of(m)
     for r in mcfg.nodes:
         if r.kind == "call" and not r.tag and isinstance(r.ast.func, ast.Attribute) \
@@ -925,7 +926,7 @@ def _binds_callback(ctx, m, inner, cbp, va, kw) -> bool:
 def _r14_5_factory(ctx, factory, w, reg, arg, fparam) -> None:
     from .common import inline_locals
     from .lru import enumerate_paths
-    m = ctx.inlined(ctx.unit("contextlib.ExitStack.callback"))
+    m = _callback_unit(ctx)
     mcfg = cfg_of(m)
     regs = [n for n in mcfg.nodes if n.kind == "call" and not n.tag and isinstance(n.ast.func, ast.Attribute)
             and _is_stack(m, n.ast.func.value) and n.ast.args]
@@ -960,10 +961,23 @@ def r14_7(ctx) -> None:
             c06._finally_blocks(Relabel(ctx, "R14.7"), u)
 
 
+_CALLBACK_VIEW = {"inlined": False}
+
+
+def _callback_unit(ctx):
+    """ExitStack.callback as written, or - when none of the accepted forms is recognised in it - its inlined view (the
+    registration may go through a private helper of the stack)."""
+    u = ctx.unit("contextlib.ExitStack.callback")
+    return ctx.inlined(u) if _CALLBACK_VIEW["inlined"] else u
+
+
 def r14_5(ctx) -> None:
     _derive_stack_attr(ctx)
-    u = _callback_runner(ctx)
-    if u is None:
+    for inlined in (False, True):
+        _CALLBACK_VIEW["inlined"] = inlined
+        u = _callback_runner(ctx)
+        if u is not None:
+            break
         closure = _callback_closure(ctx)
         if closure is not None:
             _r14_5_closure(ctx, *closure)
@@ -993,7 +1007,7 @@ def r14_5(ctx) -> None:
         ctx.check(isinstance(val, ast.Constant) and val.value is False, "R14.5", u, rets[-1] if rets else u.node.name,
                   "a callback can never suppress: constant False is returned")
     runner_name = u.node.name
-    m = ctx.inlined(ctx.unit("contextlib.ExitStack.callback"))
+    m = _callback_unit(ctx)
     mcfg = cfg_of(m)
     cbp = m.param_names()[1]
     va = m.node.args.vararg.arg if m.node.args.vararg else None
